@@ -26,7 +26,8 @@ import (
 //
 // whatever loops, parity tests and helper functions the decoder is made of.
 // false: outside the evaluator's grammar (the structural rules decide).
-func c05PrefixV6Exact(c *Ctx) bool {
+func c05PrefixV6Exact(c *Ctx) (okExact bool) {
+	defer recoverUnsupported(c, &okExact, "c05PrefixV6Exact")
 	const rule = "C05.v6.prefix-exact"
 	f := c.fn("netutil", "subnetFromReversedV6")
 	if f == nil || len(f.Params) != 1 {
@@ -192,7 +193,8 @@ func strConstOf(c *Ctx, pkg, name string) (string, bool) {
 // decodes UTF-8 as the language does) and compared with "decimal 0..255
 // without a leading zero" as a Boolean function — digit tests, accumulation
 // (in whatever integer type) and the final range test included.
-func v4LabelExact(c *Ctx, prop string) bool {
+func v4LabelExact(c *Ctx, prop string) (okExact bool) {
+	defer recoverUnsupported(c, &okExact, "v4LabelExact")
 	rule := prop + ".v4.label-exact"
 	f := c.fn("netutil", "isIPv4Label")
 	if f == nil || len(f.Params) != 1 {
@@ -200,7 +202,12 @@ func v4LabelExact(c *Ctx, prop string) bool {
 	}
 	type bad struct{ why string }
 	var fail *bad
-	for l := 0; l <= 6 && fail == nil; l++ {
+	// every label of up to 6 bytes, and a few long ones (no label of more than
+	// three bytes is an octet, however its digits add up in a machine word)
+	for _, l := range []int{0, 1, 2, 3, 4, 5, 6, 7, 10, 19, 20, 21, 25, 40} {
+		if fail != nil {
+			break
+		}
 		m := boolfn.New()
 		ev := &boolfn.Eval{M: m, Entered: map[string]bool{}, ErrorsAsBits: true, ForcePath: true, Steps: 1000000}
 		ev.InScope = core.InModule
@@ -256,7 +263,7 @@ func v4LabelExact(c *Ctx, prop string) bool {
 		c.check(false, rule, f, what, nil, fail.why)
 		return true
 	}
-	c.check(true, rule, f, what, nil, "equal as Boolean functions for every label of 0..6 bytes (all 2^8l labels per length)")
+	c.check(true, rule, f, what, nil, "equal as Boolean functions for every label of 0..6 bytes (all 2^8l labels per length) and of 7, 10, 19, 20, 21, 25 and 40 bytes")
 	return true
 }
 
@@ -274,7 +281,8 @@ func v4LabelExact(c *Ctx, prop string) bool {
 //	                 without leading zeros, dot-separated, followed by a dot
 //	and then    prefix length 8k, octet j of the address == label k-1-j (from
 //	            the left), zero beyond k
-func c05PrefixV4Exact(c *Ctx) bool {
+func c05PrefixV4Exact(c *Ctx) (okExact bool) {
+	defer recoverUnsupported(c, &okExact, "c05PrefixV4Exact")
 	const rule = "C05.v4.prefix-exact"
 	f := c.fn("netutil", "subnetFromReversedV4")
 	if f == nil || len(f.Params) != 1 {
@@ -431,7 +439,8 @@ func c05PrefixV4Exact(c *Ctx) bool {
 // the scanner is evaluated path by path on symbolic bytes (strings.Cut,
 // IndexByte & co. with their exact meaning) and its verdict compared, as a
 // Boolean function, with the dotted-quad grammar of netip.ParseAddr.
-func v4ScannerExact(c *Ctx) bool {
+func v4ScannerExact(c *Ctx) (okExact bool) {
+	defer recoverUnsupported(c, &okExact, "v4ScannerExact")
 	const rule = "C02.v4.scanner-exact"
 	f := c.fn("netutil", "isValidIPv4String")
 	if f == nil || len(f.Params) != 1 {
@@ -476,7 +485,8 @@ func v4ScannerExact(c *Ctx) bool {
 // c04V4DecodeExact decides ipv4FromReversed exactly: for every length 0..18
 // of the address part, accepted <=> dotted quad (as netip.ParseAddr reads it),
 // and the decoded address is the four octets in reverse order.
-func c04V4DecodeExact(c *Ctx) bool {
+func c04V4DecodeExact(c *Ctx) (okExact bool) {
+	defer recoverUnsupported(c, &okExact, "c04V4DecodeExact")
 	const rule = "C04.v4.decode-exact"
 	f := c.fn("netutil", "ipv4FromReversed")
 	if f == nil || len(f.Params) != 1 {
@@ -544,7 +554,8 @@ func c04V4DecodeExact(c *Ctx) bool {
 // (leading zeros allowed, as strconv.ParseUint(s, 10, 16) has it).  Emptiness
 // is the splitter's business; longer texts (where an accumulator could wrap)
 // are the business of the one-iteration rule C02.port.number.
-func c02PortNumberExact(c *Ctx) bool {
+func c02PortNumberExact(c *Ctx) (okExact bool) {
+	defer recoverUnsupported(c, &okExact, "c02PortNumberExact")
 	const rule = "C02.port.number-exact"
 	f := c.fn("netutil", "isUint16")
 	if f == nil || len(f.Params) != 1 {
@@ -676,6 +687,13 @@ func c05IndexExact(c *Ctx) map[string]bool {
 				continue // a single free byte would have to be the dot: an empty label
 			}
 			lengths = append(lengths, nt+n)
+		}
+		if sp.v6 && c.Tier != "thorough" {
+			// and the lengths at which a full address (32 labels) sits in
+			// front of the suffix, with one to three bytes before it
+			for _, n := range []int{63, 64, 65, 66, 67} {
+				lengths = append(lengths, nt+n)
+			}
 		}
 		bads := make([]string, len(lengths))
 		errs := make([]error, len(lengths))
@@ -843,7 +861,8 @@ func c05IndexExact(c *Ctx) map[string]bool {
 // netip's splitter gives: the text is cut at the last ':'; host and port are
 // non-empty; a host containing ':' must be bracketed and loses the brackets, any
 // other host is returned as it is.
-func c02SplitExact(c *Ctx) bool {
+func c02SplitExact(c *Ctx) (okExact bool) {
+	defer recoverUnsupported(c, &okExact, "c02SplitExact")
 	const rule = "C02.port.split-exact"
 	f := c.fn("netutil", "splitAddrPort")
 	if f == nil || len(f.Params) != 1 {
